@@ -50,6 +50,10 @@ claimed = {
          "Decides the conventions that are visible in code shape and on which callers rely: absent keys are reported identically by every Has/Get of DB/batch/snapshot in both Pebble backends; every Helper commits only on success; every NewIterator applies UpperBound(prefix) iff asked; all backend types implement the interfaces they are used as; BufferBatch replays deletes as deletes; the in-memory batch consults its own pending writes before the committed data; in-memory readers use one critical section. Behavioural equivalence of iterators, range deletes, snapshot isolation and batch ordering across backends is differential and not decided.",
          "trusted: go/types, go/ssa; Pebble itself is outside the analysed code",
          "DESIGN.md §5 C15"),
+ "C19": ("null-consistency (Engler) over sparse []*Unit slices with must-hold DNF; sibling term comparison of the Merkle leaf between producer, reconstructor and validator; field-set comparison of Unit literals vs validator reads; dominance of validation steps; writer/reader agreement of the length prefix; guarded unsigned subtraction",
+         "Decides crash-freedom for absent shards (no element of a sparse unit slice is dereferenced without a nil test), agreement between producer and verifier on what a Merkle leaf is (today they disagree: known finding F7), completeness of Unit literals w.r.t. what the validator reads, the validation order (record only after duplicate/origin/Merkle/signature checks; no slice indexed by the unvalidated shard index), root check before unpadding, and that the writer places the message at the offset the varint encoder reported. Bit-exact Reed–Solomon reconstruction for all subsets is not decided.",
+         "trusted: go/types, go/ssa; reedsolomon and merkle packages are treated as black boxes",
+         "DESIGN.md §5 C19"),
 }
 pending = {}  # id -> reason (properties not claimed)
 props = [json.loads(l) for l in open(os.path.join(V, "properties.jsonl"))]
